@@ -896,6 +896,20 @@ class State:
                 else:
                     s.sym[p] = ("b", ("guarded", tuple(x for x in gg[1] if x in extra), gg[2]))
                 continue
+            # `let ok = a && b && c;` leaves `ok = false` on the paths where a conjunct failed and `ok = <last comparison>` on
+            # the path where all the others held: ok == true then means that path was taken and the comparison held too
+            ca = a[1] if (a is not None and a[0] == "b" and isinstance(a[1], tuple) and a[1] and a[1][0] == "cmp") else None
+            cb = b[1] if (b is not None and b[0] == "b" and isinstance(b[1], tuple) and b[1] and b[1][0] == "cmp") else None
+            if (ca is not None and vb == 0) or (cb is not None and va == 0):
+                cc, side = (ca, self) if ca is not None else (cb, other)
+                facts = list(_diff_facts(side, s, p))
+                op_, x_, y_ = cc[1], cc[2], cc[3]
+                if x_[0] in ("n", "iv") and y_[0] in ("n", "iv") and x_[0] == "n" and y_[0] == "n":
+                    tr = {"Lt": (x_, y_, -1), "Le": (x_, y_, 0), "Gt": (y_, x_, -1), "Ge": (y_, x_, 0)}.get(op_)
+                    if tr is not None:
+                        facts.append(tr)
+                s.sym[p] = ("b", ("guarded", tuple(facts), ()))
+                continue
             if va is None or vb is None or va == vb:
                 continue
             fa, fb = _diff_facts(self, s, p), _diff_facts(other, s, p)
